@@ -258,7 +258,7 @@ type Termer struct {
 }
 
 func NewTermer(fn *ssa.Function) *Termer {
-	return &Termer{fn: fn, memo: map[ssa.Value]string{}, active: map[ssa.Value]bool{}}
+	return &Termer{fn: fn, memo: map[ssa.Value]string{}, active: map[ssa.Value]bool{}, Versioned: true}
 }
 
 func Term(v ssa.Value) string {
@@ -728,7 +728,7 @@ func allocVersion(root *ssa.Alloc, addr ssa.Value, cur ssa.Instruction) (string,
 			continue
 		}
 		if instrReaches(m, load) {
-			return "u" + load.(ssa.Value).Name(), nil
+			return "u", nil
 		}
 	}
 	if n == 1 {
